@@ -171,6 +171,17 @@ Proof.
 Qed.
 Print Assumptions c13_lsb_map_refuted.
 
+(* Pid (LinuxProcStatus::from) and microcode (get_microcode_version) take the FIRST line with the key, whatever follows *)
+Theorem c13_first_line_wins :
+  forall (key : bytes) (l1 : list kv) (v : bytes) (l2 l2' : list kv),
+  (forall e, In e l1 -> bytes_eqb (fst e) key = false) ->
+  first_value key (l1 ++ (key, v) :: l2) = Some v /\ first_value key (l1 ++ (key, v) :: l2) = first_value key (l1 ++ (key, v) :: l2').
+Proof.
+  intros key l1 v l2 l2' H.
+  rewrite !(first_value_first key l1 v _ H (bytes_eqb_refl key)). split; reflexivity.
+Qed.
+Print Assumptions c13_first_line_wins.
+
 (* ---- the per-thread walks in place (round 4) *)
 (* join_all over state.threads.iter_mut(): every piece of progress of future i transforms slot i only.  For ANY
    two interleavings with the same per-thread event sequences (in particular: any completion order, any number of
